@@ -5,7 +5,7 @@ func init() {
 	bgzfConst := RuleDef{Name: "TAB-BGZF", What: "BGZF constants equal the specification's (block sizes, BC subfield, EOF marker), payload arrays are typed by them, compressBound(BlockSize) ≤ MaxBlockSize by interpretation", Floor: 10, Run: ruleBgzfConstants}
 	bsize := RuleDef{Name: "BIT-BSIZE", What: "writeBlock stores len(member)-1 little-endian at +4/+5 of the BC subfield under size < 0x10000; expectedMemberSize is the inverse (bit domain)", Floor: 2, Run: ruleBSize}
 	fextra := RuleDef{Name: "TAB-FEXTRA", What: "BC subfield is first in every member's Extra", Floor: 1, Run: ruleFextraFirst}
-	hasEOF := RuleDef{Name: "PATH-HASEOF", What: "HasEOF reads the last len(magicBlock) bytes and compares them with magicBlock", Floor: 1, Run: ruleHasEOF}
+	hasEOF := RuleDef{Name: "PATH-HASEOF", What: "HasEOF reads the last len(magicBlock) bytes and compares them with magicBlock; a stream shorter than the marker is answered false without a read at a negative offset, and io.EOF with a full count from ReadAt is a successful read", Floor: 3, Run: func(c *Ctx, r *Rep, tier string) { ruleHasEOF(c, r, tier); ruleHasEOFEdges(c, r, tier) }}
 
 	register(&PropDef{
 		ID: "C01", Title: "BGZF write→read round trip is lossless for every write pattern and setting", Level: "other",
